@@ -52,6 +52,10 @@ func (c03) Plan(tier string, seed int64) []core.Scenario {
 		out = append(out, core.Scenario{Kind: "busy-blackhole", Seed: seed*7873 + int64(i) + 500, N: map[string]int{"every": []int{100, 40}[i%2], "noise": i % 3, "midframe": 1}, S: map[string]string{}})
 	}
 	out = append(out, core.Scenario{Kind: "stalled-write", Seed: seed * 7867, N: map[string]int{"mb": 32}, S: map[string]string{}})
+	// a client without pings (WithPingInterval(0)) but with a timeout: the read deadline is its only detector
+	for i := 0; i < 2; i++ {
+		out = append(out, core.Scenario{Kind: "noping-blackhole", Seed: seed*7841 + int64(i), N: map[string]int{"inflight": 1 + i, "noise": i}, S: map[string]string{}})
+	}
 	// the connection cut at internal steps of the library (hook points) instead of at frames on the wire
 	out = append(out, planLossAt(tier, seed)...)
 	// calls issued after the connection loop has ended: no-reconnect loss, closer, client context cancelled
@@ -81,6 +85,8 @@ func (c03) Run(sc core.Scenario) core.Result {
 		runStalledWrite(sc, r3)
 	case "lossat":
 		runLossAt(sc, r3)
+	case "noping-blackhole":
+		runNoPingBlackhole(sc, r3)
 	default:
 		runFault(sc, r3, r4)
 	}
@@ -809,4 +815,45 @@ func runCancelledBig04(sc core.Scenario, r *core.R) {
 	r.Obs("cancelled_calls_answered", int64(answeredN))
 	r.Sig(core.Log.Signature())
 	r.Sample(map[string]interface{}{"scenario": "calls cancelled around their start, multi-MiB arguments", "calls": len(calls), "answered_on_the_wire": answeredN})
+}
+
+// runNoPingBlackhole: pings are switched off, a timeout is configured; the peer falls silent with calls in
+// flight. The calls must come back and calls issued later must work again (or fail promptly).
+func runNoPingBlackhole(sc core.Scenario, r *core.R) {
+	env := NewEnv(EnvOpt{ServerOpts: []jsonrpc.ServerOption{jsonrpc.WithServerPingInterval(0)}})
+	defer env.Shutdown()
+	pol := noisePolicy(sc)
+	defer pol.Install()()
+	cl, err := env.NewClient(ClientOpt{Opts: []jsonrpc.Option{jsonrpc.WithPingInterval(0), jsonrpc.WithTimeout(500 * time.Millisecond), jsonrpc.WithReconnectBackoff(5*time.Millisecond, 20*time.Millisecond)}})
+	if err != nil {
+		r.Inconclusive("client: %v", err)
+		return
+	}
+	bg := context.Background()
+	var held []*Outcome
+	for i := 0; i < sc.I("inflight"); i++ {
+		t := Tok("h")
+		env.Svc.Hold(t)
+		held = append(held, Go(t, func() (string, error) { return cl.Echo(bg, t, "") }))
+		if !env.Svc.WaitEntered(t, core.Grace) {
+			r.Inconclusive("held call never reached its handler (the ping-less link may just have been re-dialled)")
+			return
+		}
+	}
+	env.Px.KillAll(wsproxy.BLACKHOLE)
+	for _, o := range held {
+		if !o.Wait(core.Grace) {
+			r.Violate("lost-call:noping", "pings off, timeout 500 ms: a call in flight when the peer fell silent is still blocked after %v", core.Grace)
+		} else if o.Err == nil {
+			r.Violate("foreign-result", "call across a black hole returned %q", o.Val)
+		}
+	}
+	env.Svc.ReleaseAll()
+	if !probeUntilHealthy(cl, r, 2*core.Grace) {
+		r.Violate("lost-call:probe", "pings off, timeout 500 ms: the client never became usable again after the peer fell silent")
+	}
+	r.Key(fmt.Sprintf("noping-blackhole inflight=%d", sc.I("inflight")), true)
+	r.Obs("calls", int64(len(held)))
+	r.Sig(core.Log.Signature())
+	r.Sample(map[string]interface{}{"scenario": "black hole on a client without pings", "calls_in_flight": len(held)})
 }
